@@ -433,10 +433,15 @@ def run_backpressure(noise: bool) -> dict[str, Any]:
     ]
     sp = specs()
     for si, seq in enumerate(seqs):
-        for mode in ("blocked", "partial-1", "partial-7", "blocked-after-first"):
+        for mode in ("blocked", "partial-1", "partial-7", "blocked-after-first", "paused-raced"):
             s = Session((1, 10), noise=noise)
             try:
                 sock = s.sock
+                if mode == "paused-raced":
+                    # the device stops reading, more than asyncio's high-water mark is queued (the protocol is told to pause), further
+                    # commands follow, and the last one is issued in the loop turn in which the socket drains (from a timer due in that turn)
+                    sock.writable = False
+                    seq = [("text_command", {"key": 90 + j, "state": "z" * 30000}) for j in range(3)] + list(seq)
                 if mode == "blocked":
                     sock.writable = False
                 elif mode.startswith("partial"):
@@ -458,6 +463,11 @@ def run_backpressure(noise: bool) -> dict[str, Any]:
                     exp, _ = expected_request(meth, spec, (1, 10), kw["key"], req_vals, supplied, None)
                     expected.append((spec["msg"], exp))
                 sock.writable = True
+                if mode == "paused-raced":
+                    s.w.loop.call_later(0, lambda: s.w.client.switch_command(key=99, state=True))
+                    exp99, _ = expected_request("switch_command", sp["switch_command"], (1, 10), 99, {}, {"state": True}, None)
+                    expected.append((sp["switch_command"]["msg"], exp99))
+                    calls += 1
                 s.w.drain()
                 try:
                     if noise:
